@@ -348,7 +348,8 @@ func zapSkipIfZero[T comparable](val T, f zap.Field) zap.Field {
 
 func (adapter *Adapter) runOnce(ctx context.Context, logger *zap.Logger, item QItem) (err error) {
 	defer func() {
-		if err != nil && errors.Is(err, context.Canceled) {
+		// context.Canceled is not a failure only if the runtime context is done
+		if err != nil && errors.Is(err, context.Canceled) && ctx.Err() != nil {
 			err = nil
 		}
 	}()
@@ -401,7 +402,7 @@ func (adapter *Adapter) runWithBackoff(ctx context.Context, hook func(context.Co
 	for {
 		startTime := time.Now()
 
-		err := adapter.runWithPanicHandler(func() error {
+		err := adapter.runWithPanicHandler(ctx, func() error {
 			return hook(ctx, adapter.logger, adapter)
 		})
 		if err == nil {
@@ -425,9 +426,10 @@ func (adapter *Adapter) runWithBackoff(ctx context.Context, hook func(context.Co
 	}
 }
 
-func (adapter *Adapter) runWithPanicHandler(f func() error) (err error) {
+func (adapter *Adapter) runWithPanicHandler(ctx context.Context, f func() error) (err error) {
 	defer func() {
-		if err != nil && errors.Is(err, context.Canceled) {
+		// context.Canceled is not a failure only if the runtime context is done
+		if err != nil && errors.Is(err, context.Canceled) && ctx.Err() != nil {
 			err = nil
 		}
 
